@@ -17,11 +17,11 @@ var Props = []*h.Prop{
 		Real:        realCap,
 		Stub:        stubCap,
 		Assumptions: []string{"frames that are neither IPv4 nor IPv6 have no flow and are excluded", "with an overflow the lost packets are checked by count and by per-class upper bounds, not attributed individually"}},
-	{ID: "C23", Run: c21, Bubble: true,
+	{ID: "C23", Run: c23, Bubble: true,
 		Rule:        "the local packet buffer is exercised in situ by the C21 scenario (production call pattern: adds while paused, drain-all, reset): pause-window length (schedule) and size limit (knob: 4096, 4097, 4100, 6000, 8192, 12288, 100000, 64 MiB) determine the add/grow/refuse/drain sequence; drained items must reproduce key, IP version, direction, TCP flags / ICMP type (orientation), parse status and size (class-wise conservation of the four counters), and an overflow is accepted only if a pause window received packets worth at least the limit; non-trivial = every run; distinct = distinct event-log hash including scheduling decisions",
 		Real:        realCap,
 		Stub:        stubCap,
-		Assumptions: []string{"only the production call pattern of the buffer is explored; arbitrary API sequences on a bare buffer are input-space testing and not claimed", "insertion order is observable only through flow orientation (first packet of a conversation decides)"}},
+		Assumptions: []string{"two runs in three exercise the buffer in situ (production call pattern), one run in three drives the bare buffer against a reference FIFO (1-4 cycles of inserts with every field value, complete drain, reset; limits around the growth steps); a refusal of the bare buffer is only judged when less than half of the limit is in use by the most generous accounting (the footprint of an element is not part of the contract)", "insertion order is observable only through flow orientation (first packet of a conversation decides)"}},
 	{ID: "C22", Run: c22, Bubble: true,
 		Rule:        "one evaluation = one conversation (TCP handshake incl. ECN flag variants, ICMP echo / timestamp, ICMPv6 echo, TCP or UDP without handshake flags and ports drawn from the class boundaries 1, 22, 53, 80, 123, 443, 445, 500, 1023/1024, 2049, 8080, 32767/32768/32769, 40000, 50000, 60999, 65535; both IP versions; random in/out packet types) delivered to two interfaces of one real capture manager, request first on one, response first on the other, followed by 0-3 further packets; non-trivial = the documented heuristics are decisive for both first packets; distinct = distinct event-log hash",
 		Real:        realCap,
